@@ -3,10 +3,14 @@ package checks
 import (
 	"encoding/binary"
 	"fmt"
+	"os"
+	"path/filepath"
 	"runtime"
 	"sort"
 	"strings"
 	"testing"
+
+	"github.com/akrylysov/pogreb"
 
 	"verif/harness/core"
 	"verif/harness/dbx"
@@ -236,6 +240,101 @@ func recoverAndCompare(tb *tailBase, desc string) (*imageResult, error) {
 	return res, nil
 }
 
+// materialize writes the files of the image's database directory into a fresh directory of a
+// real file system implementation ("os", "mmap" or "mem").
+func materialize(img *faultfs.State, kind string) (*Env, error) {
+	env := NewEnv(kind)
+	if err := env.FS.MkdirAll(env.Dir, 0755); err != nil {
+		return nil, &core.Inconclusive{Msg: "materialize: " + err.Error()}
+	}
+	for name, data := range dirFiles(img, "db") {
+		f, err := env.FS.OpenFile(filepath.Join(env.Dir, name), os.O_CREATE|os.O_RDWR|os.O_TRUNC, 0640)
+		if err != nil {
+			env.Cleanup()
+			return nil, &core.Inconclusive{Msg: "materialize: " + err.Error()}
+		}
+		if len(data) > 0 {
+			if _, err := f.WriteAt(data, 0); err != nil {
+				_ = f.Close()
+				env.Cleanup()
+				return nil, &core.Inconclusive{Msg: "materialize: " + err.Error()}
+			}
+		}
+		if err := f.Close(); err != nil {
+			env.Cleanup()
+			return nil, &core.Inconclusive{Msg: "materialize: " + err.Error()}
+		}
+	}
+	return env, nil
+}
+
+// recoverOnRealFS runs the real recovery on a copy of the image that lives on a real file system
+// implementation and compares with the independent decoder, as recoverAndCompare does on the
+// recording file system. It returns the bytes allocated by the recovering Open.
+func recoverOnRealFS(tb *tailBase, img *faultfs.State, kind, desc string) (uint64, error) {
+	desc = desc + " [on " + kind + "]"
+	want, wantEnd, err := format.Replay(dirFiles(img, "db"))
+	if err != nil {
+		return 0, &core.Inconclusive{Msg: err.Error()}
+	}
+	env, err := materialize(img, kind)
+	if err != nil {
+		return 0, err
+	}
+	defer env.Cleanup()
+	dbx.ResetLog()
+	var db *pogreb.DB
+	alloc, err := allocDuring(func() error {
+		var e error
+		db, e = dbx.Open(env.Dir, tb.cfg, env.FS)
+		return e
+	})
+	if err != nil {
+		return 0, fmt.Errorf("%s: Open failed: %v", desc, err)
+	}
+	if !dbx.RecoveryRan() {
+		_ = core.Safe(func() error { return db.Close() })
+		return 0, fmt.Errorf("%s: Open of a directory with a lock file did not run recovery", desc)
+	}
+	got, err := dbx.Dump(db)
+	if err == nil && !dbx.Equal(got, want) {
+		err = fmt.Errorf("recovered contents differ from the replay of the valid record prefixes: %s", dbx.Diff(got, want))
+	}
+	if err == nil {
+		_, err = dbx.CheckIndex(db)
+	}
+	if cerr := core.Safe(func() error { return db.Close() }); err == nil && cerr != nil {
+		err = fmt.Errorf("Close after recovery failed: %v", cerr)
+	}
+	if err != nil {
+		return 0, fmt.Errorf("%s: %v", desc, err)
+	}
+	files, ferr := env.Files()
+	if ferr != nil {
+		return 0, &core.Inconclusive{Msg: ferr.Error()}
+	}
+	for name, end := range wantEnd {
+		if l := len(files[name]); l != end {
+			return 0, fmt.Errorf("%s: segment %s is %d bytes long after recovery, the valid record prefix ends at %d", desc, name, l, end)
+		}
+	}
+	db2, err := dbx.Open(env.Dir, tb.cfg, env.FS)
+	if err != nil {
+		return 0, fmt.Errorf("%s: reopen after recovery failed: %v", desc, err)
+	}
+	defer func() { _ = core.Safe(func() error { return db2.Close() }) }()
+	got2, err := dbx.Dump(db2)
+	if err != nil {
+		return 0, fmt.Errorf("%s: reopen after recovery: %v", desc, err)
+	}
+	if !dbx.Equal(got2, want) {
+		return 0, fmt.Errorf("%s: contents changed across a clean restart after recovery: %s", desc, dbx.Diff(got2, want))
+	}
+	return alloc, nil
+}
+
+var realKinds = []string{"os", "mmap", "mem"}
+
 // C08: recovery replays exactly the valid record prefix of each segment.
 func propC08(ch core.Chooser, st *core.Stats) error {
 	tb, err := buildTailBase(ch, st)
@@ -251,6 +350,14 @@ func propC08(ch core.Chooser, st *core.Stats) error {
 	ch.Note("%s", desc)
 	if _, err := recoverAndCompare(tb, desc); err != nil {
 		return err
+	}
+	// the same image recovered through a real file system implementation
+	if core.Pct(ch, "also_on_real_fs", 35) {
+		rk := realKinds[ch.Int("real_fs", 0, len(realKinds)-1)]
+		if _, err := recoverOnRealFS(tb, tb.img, rk, desc); err != nil {
+			return err
+		}
+		st.Count("also_recovered_on_"+rk, 1)
 	}
 	st.Eval(1)
 	st.Count("mutation_"+kind, 1)
@@ -333,6 +440,24 @@ func propC19(ch core.Chooser, st *core.Stats) error {
 	// and the tail is discarded exactly as C08 demands
 	if _, err := recoverAndCompare(tb, desc); err != nil {
 		return err
+	}
+	// the same pair of images (without and with the tail) through a real file system
+	// implementation: the bound is the same
+	if core.Pct(ch, "also_on_real_fs", 50) {
+		rk := realKinds[ch.Int("real_fs", 0, len(realKinds)-1)]
+		ctrlReal, err := recoverOnRealFS(tb, control, rk, "control image without the tail")
+		if err != nil {
+			return err
+		}
+		gotReal, err := recoverOnRealFS(tb, tb.img, rk, desc)
+		if err != nil {
+			return err
+		}
+		if realBound := ctrlReal + 4*uint64(len(tail)) + 64<<10; gotReal > realBound {
+			return fmt.Errorf("%s [on %s]: the recovering Open allocated %d bytes; the same Open without the tail allocates %d bytes (bound %d = control + 4 x %d tail bytes + 64 KiB); segment files hold %d bytes in total",
+				desc, rk, gotReal, ctrlReal, realBound, len(tail), segTotal)
+		}
+		st.Count("also_measured_on_"+rk, 1)
 	}
 	claimed := uint64(ks) + uint64(vs) + 10
 	if claimed >= uint64(len(tail))+1<<20 {
